@@ -249,6 +249,18 @@ def run(tier, seed):
                                                   ("[" + "|".join(b[:10] for b in x["body"]) + ("]" if x["closed"] else "")) if "body" in x else "",
                                                   e["end"], "@" + cpu if cpu != "msp430" else ""), script[:3000])
         jobs.append((exe, wd, cid, "t.hex", good["hex"], ["-" + cpu], script))
+    # register names: every `set` argument class of UtilSession against every simulator (each has its own name parser)
+    from .. import codec as K
+    setargs = sorted({x["arg"] for sq in sessions for x in sq if x["cmd"] == "set" and "=" in x["arg"]})
+    sims = [c["name"] for c in K.cpu_list(vdir) if c["sim"]]
+    if len(setargs) < 10 or len(sims) < 15:
+        raise C.InfraError("set arguments %d, simulators %d" % (len(setargs), len(sims)))
+    for si, cpu in enumerate(sims):
+        for ai, a in enumerate(setargs):
+            cid = "r%d_%d" % (si, ai)
+            script = "set %s\nregisters\nclear %s\nquit\n" % (a, a.split("=")[0])
+            meta[cid] = ("session:set(%s)@%s" % (re.sub(r"[0-9]", "#", a), cpu), script)
+            jobs.append((exe, wd, cid, "t.hex", good["hex"], ["-" + cpu], script))
     # command lines: options with, without and with malformed arguments, in pairs, with and without a file
     cmdl = []
     for part in C.parse_payload(s.lines, "CMDL "):
